@@ -9,7 +9,7 @@ package main
 //   - c19ParseScript: the script language of harness/shot plus body classes with lists of ANY length
 //     bjl<n>  {"result":"ok","items":[0,…,n-1],"names":["e0",…],"objs":[{"id":0},…],"n":"<n>","a":{"b":"c"}}
 //     bhl<n>  an HTML page with n <li class="it">e<k></li> elements
-//     bjs<hex> {"v": <the text as a JSON string>, "l": [<the text>], "n": "<its length>"}
+//     bjt<hex> {"v": <the text as a JSON string>, "l": [<the text>], "n": "<its length>"}
 //   - step tokens (engine runs):  P~<src>~<i+hex index text|->[~<sub>]  preprocessor mapping x = request.<src>.postprocessor.v[<index>][.<sub>]
 //     F~<fn>~<src>   preprocessor mapping x = <fn>(request.<src>.postprocessor.v)  (fn: rs randString(v) | rs2 randString(3, v) |
 //     ri randInt(v) | ri2 randInt(v, 10) | ri3 randInt(-5, v))
@@ -59,7 +59,7 @@ func c19ParseScript(s string) (shot.Script, error) {
 	hasBody := false
 	for _, f := range strings.Split(s, ".") {
 		switch {
-		case strings.HasPrefix(f, "bjs"):
+		case strings.HasPrefix(f, "bjt"):
 			body = jsonStringBody(unhx(f[3:]))
 			hasBody = true
 		case strings.HasPrefix(f, "bjl") || strings.HasPrefix(f, "bhl"):
@@ -506,7 +506,7 @@ func genVars(r *rand.Rand, thorough bool) []string {
 	for _, txt := range oddTexts {
 		for _, use := range []string{"UH~st0", "UB~st0", "U", "UH~st0+UB~st0+TH", "P~st0~" + ixField("last")} {
 			for _, pp := range []string{"J~v", "J~l"} {
-				out = append(out, fmt.Sprintf("k=run gun=http/scenario tgt=live inst=1 n=2 steps=st0,s200.bjs%s,r200,%s;st1,s200.bjson,r200,%s;st2,s404,r404,-", hx(txt), pp, use))
+				out = append(out, fmt.Sprintf("k=run gun=http/scenario tgt=live inst=1 n=2 steps=st0,s200.bjt%s,r200,%s;st1,s200.bjson,r200,%s;st2,s404,r404,-", hx(txt), pp, use))
 			}
 		}
 	}
@@ -550,6 +550,61 @@ func genVars(r *rand.Rand, thorough bool) []string {
 			opts = strings.ReplaceAll(strings.ReplaceAll(opts, " redir=1", ""), " gz=1", "")
 		}
 		out = append(out, fmt.Sprintf("k=run gun=http/scenario tgt=live inst=%d n=%d%s steps=%s", []int{1, 1, 2, 3}[r.Intn(4)], 1+r.Intn(mul(4, 8)), opts, strings.Join(steps, ";")))
+	}
+	// 6. the gRPC scenario gun: a preprocessor ("prepare") reads a field of an earlier RESPONSE MESSAGE — a repeated field
+	// of any length (proto3 JSON omits an empty one), a string, a field of a call that failed
+	for _, n := range []int{0, 1, 3} {
+		for _, ix := range []string{"next", "rand", "last", "0", "-1", "7", "foo", "-"} {
+			f := "-"
+			if ix != "-" {
+				f = ixField(ix)
+			}
+			out = append(out, fmt.Sprintf("k=run gun=grpc/scenario tgt=grpc inst=1 n=2 calls=tg0,list,%d,-;tg1,ok,0,Pg~0~result~%s~itemId;tg2,ok,0,-", n, f))
+			if thorough {
+				out = append(out, fmt.Sprintf("k=run gun=grpc/scenario tgt=grpc inst=2 n=3 calls=tg0,list,%d,-;tg1,ok,0,Pg~0~result~%s;tg2,ok,0,Pg~1~hello~%s", n, f, f))
+			}
+		}
+	}
+	for _, ix := range []string{"next", "rand", "last", "0", "-"} {
+		f := "-"
+		if ix != "-" {
+			f = ixField(ix)
+		}
+		for _, k0 := range []string{"ok,0", "code,5", "foreign,0", "empty,0", "garbage,1", "nomethod,0"} {
+			out = append(out, fmt.Sprintf("k=run gun=grpc/scenario tgt=grpc inst=1 n=2 calls=tg0,%s,-;tg1,ok,0,Pg~0~hello~%s;tg2,ok,0,-", k0, f))
+		}
+	}
+	for _, fn := range []string{"rs", "rs2", "ri", "ri2", "ri3"} {
+		out = append(out, fmt.Sprintf("k=run gun=grpc/scenario tgt=grpc inst=1 n=2 calls=tg0,ok,0,-;tg1,ok,0,Fg~%s~0~hello;tg2,ok,0,-", fn))
+		out = append(out, fmt.Sprintf("k=run gun=grpc/scenario tgt=grpc inst=1 n=2 calls=tg0,list,2,-;tg1,ok,0,Fg~%s~0~result;tg2,ok,0,as200", fn))
+	}
+	for i := 0; i < mul(30, 1500); i++ {
+		k := 2 + r.Intn(3)
+		var calls []string
+		for j := 0; j < k; j++ {
+			kind := []string{"ok,0", "ok,0", fmt.Sprintf("list,%d", r.Intn(4)), fmt.Sprintf("list,%d", r.Intn(4)), fmt.Sprintf("code,%d", 1+r.Intn(16)), "foreign,0", "empty,0"}[r.Intn(7)]
+			var toks []string
+			if r.Intn(4) == 0 {
+				toks = append(toks, fmt.Sprintf("as%d", []int{200, 404}[r.Intn(2)]))
+			}
+			if j > 0 && r.Intn(3) != 0 {
+				f := "-"
+				if r.Intn(4) != 0 {
+					f = ixField(engIdx[r.Intn(len(engIdx)-1)])
+				}
+				tok := fmt.Sprintf("Pg~%d~%s~%s", r.Intn(j), []string{"result", "result", "hello"}[r.Intn(3)], f)
+				if r.Intn(3) == 0 {
+					tok += "~itemId"
+				}
+				toks = append(toks, tok)
+			}
+			pp := "-"
+			if len(toks) > 0 {
+				pp = strings.Join(toks, "+")
+			}
+			calls = append(calls, fmt.Sprintf("tg%d,%s,%s", j, kind, pp))
+		}
+		out = append(out, fmt.Sprintf("k=run gun=grpc/scenario tgt=grpc inst=%d n=%d calls=%s", []int{1, 2}[r.Intn(2)], 1+r.Intn(3), strings.Join(calls, ";")))
 	}
 	return out
 }
